@@ -26,7 +26,8 @@ EXPLANATION = (
     'Kernels of (S-1)^k are the polynomials of degree < k, which gives the '
     '"vanishes on constant / linear / quadratic / separable" clauses; '
     'non-negativity and linearity in l1, l2 follow from the abs/square/sum '
-    'structure. Floating-point evaluation is trusted.')
+    'structure. Floating-point evaluation is trusted.'
+    ' Also decided (L6 amounts): the two lattice regularizers are evaluated with tensors opaque on 50 configurations each (amounts absent / scalar / list / tuple with zeros, units 1 and 2) and the multiset of (norm, dimension(s), coefficient) terms equals the documented sum (skip guards, square roots, zero-weighted units axis); PWL regularizers give up only on kernels the property excepts (size guards); all return values are tensors of the kernel dtype (D1); tuple amounts are handled (T3).')
 ASSUMPTIONS = ['tensor slicing, tf.transpose and tf.reshape (row-major) '
                'semantics', 'PWL kernel = [bias; heights]']
 
